@@ -15,6 +15,7 @@ require (
 
 require (
 	github.com/envoyproxy/protoc-gen-validate v0.1.0 // indirect
+	github.com/ghodss/yaml v1.0.0 // indirect
 	github.com/gogo/protobuf v1.3.0 // indirect
 	github.com/golang/protobuf v1.3.2 // indirect
 	github.com/kavu/go_reuseport v1.4.0 // indirect
@@ -28,6 +29,7 @@ require (
 	golang.org/x/sys v0.0.0-20190907184412-d223b2b6db03 // indirect
 	golang.org/x/text v0.3.0 // indirect
 	google.golang.org/genproto v0.0.0-20180817151627-c66870c02cf8 // indirect
+	gopkg.in/yaml.v2 v2.2.2 // indirect
 )
 
 replace github.com/samaritan-proxy/samaritan => /repo
